@@ -406,3 +406,59 @@ def run(ck: Check):
                                                     "harness/c03b.py desc_term (description dict -> Spec.MetaSpec.mdesc)",
                                                     "recorded converter table (ConverterFactory wrapped in the impl process)"],
                      assumptions=axioms)
+
+
+# ------------------------------------------------------------------ witness file for Properties/C03b.v
+def write_witness_file(path=None):
+    """Run the witnesses of the known findings (and two instances inside the guard) on the
+    implementation and write description / recorded parent namespaces / exported universe /
+    instance / recorded conversions / observed events as Gallina definitions
+    (coq/Proofs/EventGenWitness.v).  Regenerate with:  cd /verif && /venv/bin/python harness/c03b.py"""
+    wit = witness_models()
+    P = lambda t, v: {"__p__": t, "v": v}   # noqa: E731
+    d = {"module_ns": "urn:m", "enums": [{"name": "E0", "base": "str", "members": [("M0", "alpha"), ("M1", "beta")]}], "root": "R", "slices": ["F1"],
+         "classes": [
+        {"name": "R", "meta": {"namespace": "urn:r", "name": "root"}, "base": None, "fields": [
+            F("id", "Attribute", ("prim", "int"), default=7, optional=False),
+            F("lang", "Attribute", ("prim", "str"), optional=True, namespace="urn:x"),
+            F("tags", "Element", ("prim", "int"), tokens=True, optional=False, nillable=True),
+            F("kid", "Element", ("class", "K"), list=True, wrapper="kids"),
+            F("a", "Element", ("prim", "str"), list=True, sequence=1), F("b", "Element", ("enum", "E0"), list=True, sequence=1),
+            F("note", "Element", ("prim", "str"), optional=True, nillable=True, namespace="")]},
+        {"name": "K", "meta": {"nillable": True}, "base": None, "fields": [
+            F("v", "Text", ("prim", "Decimal"), optional=True), F("u", "Attribute", ("prim", "QName"), optional=True)]}]}
+    rec = {"__cls__": "R", "fields": {"id": P("int", 7), "lang": P("str", "en"), "tags": [P("int", 1), P("int", -2)],
+                                      "kid": [{"__cls__": "K", "fields": {"v": P("Decimal", "1.50"), "u": P("QName", "{urn:q}n")}},
+                                              {"__cls__": "K", "fields": {"v": None, "u": None}}],
+                                      "a": [P("str", "x"), P("str", "y"), P("str", "")], "b": [{"__p__": "enum", "enum": "E0", "member": "M1"}],
+                                      "note": None}}
+    wit = wit + [("inside-guard", d, rec), ("inside-guard-ignore-defaults", d, rec)]
+    models = [{"src": genmodels.render_source(dd), "classes": [c["name"] for c in dd["classes"]],
+               "enums": [e["name"] for e in dd["enums"]],
+               "cases": [{"recipe": r, "ignore": cls.endswith("ignore-defaults"), "derived": None, "hostile": False}]}
+              for cls, dd, r in wit]
+    res = run_impl("impl_eventgen.py", {"models": models})
+    out = ["(* Proofs/EventGenWitness.v — GENERATED by harness/c03b.py (write_witness_file): the witnesses of the",
+           "   C03b findings and two instances inside the guard, as exported from the implementation. *)",
+           "From Coq Require Import NArith ZArith List Bool.",
+           "From XV Require Import Base.Str Base.Eqb Model.Bind Model.EventGen Model.EventGenCorr Spec.MetaSpec Model.Builder.",
+           "Import ListNotations.", ""]
+    for (cls, dd, _r), m, rm in zip(wit, models, res["models"]):
+        name = "w_" + cls.replace("-", "_")
+        c = rm["cases"][0]
+        assert rm["universe"] and c["outcome"], (cls, rm)
+        out.append(f"(* {cls} *)")
+        out.append(f"Definition {name}_u : universe := {rm['universe']}.")
+        out.append(f"Definition {name}_d : mdesc := {desc_term(dd)}.")
+        out.append(f"Definition {name}_p : list (cls * option str) := {rm['pns']}.")
+        out.append(f"Definition {name} : full_case := (false, {name}_u, {name}_d, {name}_p, "
+                   f"mk_gen_case {cbool(m['cases'][0]['ignore'])} {c['table']} {c['value']} {c['outcome']}).")
+        out.append("")
+    path = path or os.path.join(COQ, "Proofs", "EventGenWitness.v")
+    with open(path, "w") as fh:
+        fh.write("\n".join(out))
+    return path
+
+
+if __name__ == "__main__":
+    print(write_witness_file())
